@@ -41,11 +41,12 @@ Theorem c15_reject_frame : forall s r, accepted s r = false -> step s r = s.
 Proof. exact reject_frame. Qed.
 Print Assumptions c15_reject_frame.
 
-(* an accepted deletion: the quota had no child and no pod, and is gone afterwards *)
+(* an accepted deletion: the quota had no child and no bound pod (carrying its label, in the
+   namespace named like it, or in a namespace it declares), and is gone afterwards *)
 Theorem c15_delete_guard : forall g rs pods q,
   accepted (run g rs) (pods, Delete q) = true ->
   (forall c, ~ child_of (infos (run g rs)) (q_name q) c)
-  /\ existsb (fun p => fst p =? q_name q) pods = false
+  /\ has_pods pods (q_name q) (ann_ns q) = false
   /\ find (q_name q) (infos (step (run g rs) (pods, Delete q))) = None.
 Proof. exact (fun g rs pods q => delete_guard (run g rs) pods q (WF_run g rs)). Qed.
 Print Assumptions c15_delete_guard.
@@ -67,31 +68,11 @@ Theorem c15_namespace_unique : forall g rs,
 Proof. exact ns_unique. Qed.
 Print Assumptions c15_namespace_unique.
 
-(* FINDING: the full-strength deletion guard ("a quota with pods is not deleted", pods counted
-   the way hasQuotaBoundedPods counts them) is false of the faithful model, and of the code:
-   ValidDeleteQuota only looks for pods carrying the quota-name label *)
-Theorem c15_delete_guard_bound_pods_refuted : exists rs pods q,
-  accepted (run (false, false) rs) (pods, Delete q) = true /\ has_pods pods (q_name q) (ann_ns q) = true.
-Proof. exact (ex_intro _ [([], Add Qns)] (ex_intro _ [(-1, 1000)] (ex_intro _ Qns ex_delete_nsbound))). Qed.
-Print Assumptions c15_delete_guard_bound_pods_refuted.
-
 (* the whole-history decision procedure that bin/check evaluates on the implementation's
-   observables (Extract.prop_case) holds on the model's own observable, for every history in
-   which no deletion request finds pods bound to the quota through its namespaces ... *)
-Theorem c15_prop_code_model : forall g rs,
-  no_nsbound_delete rs = true -> prop_code g rs (trace (init_topo g) rs) = 0.
-Proof. exact (fun g rs => proj2 (prop_code_trace g rs)). Qed.
+   observables (Extract.prop_case) holds on the model's own observable, for every history *)
+Theorem c15_prop_code_model : forall g rs, prop_code g rs (trace (init_topo g) rs) = 0.
+Proof. exact prop_code_trace. Qed.
 Print Assumptions c15_prop_code_model.
-
-(* ... and for arbitrary histories the only clause that can fail is that one (21) *)
-Theorem c15_prop_code_model_partial : forall g rs,
-  prop_code g rs (trace (init_topo g) rs) = 0 \/ prop_code g rs (trace (init_topo g) rs) = 21.
-Proof. exact (fun g rs => proj1 (prop_code_trace g rs)). Qed.
-Print Assumptions c15_prop_code_model_partial.
-
-Theorem c15_prop_code_refuted : exists rs, prop_code (false, false) rs (trace (init_topo (false, false)) rs) = 21.
-Proof. exact (ex_intro _ h_nsdel ex_prop_code_21). Qed.
-Print Assumptions c15_prop_code_refuted.
 
 (* ---------------------------------------------------------------- non-vacuity / regressions *)
 Example c15_ex_tree_accepted : map fst (trace (init_topo (false, false)) h_tree) = [true; true; true; true].
@@ -118,6 +99,21 @@ Proof. exact ex_delete_guard. Qed.
 Example c15_ex_wf_code_cycle :
   wf_code (mkTopo false false [(3, inf 4 true 5); (4, inf 3 true 5)] [(0, []); (3, [4]); (4, [3])] []) = 12.
 Proof. exact ex_wf_code_cycle. Qed.
+(* regression for the repaired finding: the OLD label-only deletion check admitted the deletion
+   of a quota with a namespace-bound pod; the repaired one refuses it; prop_code names it (21) *)
+Example c15_ex_old_delete_nsbound_refuted :
+  delete_code_old (run (false, false) [([], Add Qns)]) [(-1, 1000)] Qns = 0
+  /\ has_pods [(-1, 1000)] (q_name Qns) (ann_ns Qns) = true.
+Proof. exact ex_old_delete_nsbound_refuted. Qed.
+Example c15_ex_delete_nsbound_rejected :
+  code (run (false, false) [([], Add Qns)]) ([(-1, 1000)], Delete Qns) = 6
+  /\ code (run (false, false) [([], Add Qns)]) ([(-1, 3)], Delete Qns) = 6
+  /\ code (run (false, false) [([], Add Qns)]) ([(-1, 1001)], Delete Qns) = 0.
+Proof. exact ex_delete_nsbound_rejected. Qed.
+Example c15_ex_prop_code_21 :
+  prop_code (false, false) h_nsdel
+    [(true, run (false, false) [([], Add Qns)]); (true, init_topo (false, false))] = 21.
+Proof. exact ex_prop_code_21. Qed.
 Example c15_ex_flip_nsbound_rejected :
   code (run (false, false) [([], Add Qns)])
        ([(-1, 1000)], Update Qns (with_ns (exq 3 (-1) true 1 1 20 20) [1000])) = 5.
